@@ -23,7 +23,7 @@ func init() {
 		Rule: "1-3 observations on one real connection (UDP, DTLS shim, TCP, TLS shim; block-wise on/off); a scripted notifier answers registrations with 2.05/2.03/4.04/5.00/2.05-without-Observe and sends notification streams with sequence numbers around 0, 2^23 and 2^24-1, permuted, duplicated, with inter-arrival times around 128 s (+-1 ms), for registered, cancelled and never-registered tokens; cancellation at any point; " +
 			"non-trivial = at least one notification was delivered out of order, duplicated or across the 128 s window; distinct = distinct event-log hash",
 		Scenarios: []Scenario{{Name: "S-OBS/scripted-notifier", Weight: 1, Run: c08Run}},
-		Quick:     60000,
+		Quick:     200000,
 		Thorough:  3000000,
 		Assume: []string{
 			"freshness exactly as RFC 7641 3.4; an inter-arrival time of exactly 128 s is not fresh by that text",
